@@ -496,11 +496,11 @@ int main()
         if (k.t.empty())
             continue;
         try {
-            std::cout << respond(k) << '\n';
+            std::cout << respond(k) << std::endl;
         } catch (const std::string& s) {
-            std::cout << "bad-request " << s << '\n';
+            std::cout << "bad-request " << s << std::endl;
         } catch (const std::exception& e) {
-            std::cout << "exn " << exn_kind(e) << '\n';
+            std::cout << "exn " << exn_kind(e) << std::endl;
         }
     }
     std::cout.flush();
